@@ -566,6 +566,9 @@ func (c *VirtualTable) Insert(ctx context.Context, values map[int]interface{}) (
 		}
 	}
 	dbg("%T %+v\n", key, key)
+	if err := c.checkNotNull(values); err != nil {
+		return 0, err
+	}
 	var old *v1proto.Row
 	var new v1proto.Row
 	var ot time.Time
@@ -593,6 +596,19 @@ func (c *VirtualTable) Insert(ctx context.Context, values map[int]interface{}) (
 	return 0, nil
 }
 
+// checkNotNull enforces NOT NULL on the non-key columns being assigned.
+func (c *VirtualTable) checkNotNull(values map[int]interface{}) error {
+	if c.usesRowID {
+		return nil
+	}
+	for i, v := range values {
+		if v == nil && i != c.KeyCol && i < len(c.schema.Columns) && c.schema.Columns[i].NotNull {
+			return ErrS3DBConstraintNotNull
+		}
+	}
+	return nil
+}
+
 func (c *VirtualTable) Update(ctx context.Context, key interface{}, values map[int]interface{}) error {
 	dbg("UPDATE ")
 	if key == nil {
@@ -611,6 +627,9 @@ func (c *VirtualTable) Update(ctx context.Context, key interface{}, values map[i
 	}
 	if !ok || old.Deleted {
 		return nil
+	}
+	if err := c.checkNotNull(values); err != nil {
+		return err
 	}
 	new.ColumnValues = make(map[string]*v1proto.ColumnValue)
 	for i, v := range values {
